@@ -984,15 +984,26 @@ def scn_rejected(R, rng):
 
 
 # --- ODE ------------------------------------------------------------------------------------
+class _RunAway(RuntimeError):
+    """Raised by the harness callbacks when one solve has used an absurd number of callback calls (a corrupted
+    right-hand side can make the ODE diverge and the adaptive solver crawl for hours)."""
+
+
+CALL_LIMIT = 150000  # per solve; solves of this workload need a few thousand callback calls
+
+
 class _CB:
     """Callback factory. `math` fixes the function, `kind` how the array is produced."""
 
     def __init__(self, readonly):
         self.readonly = readonly
         self.caches = []
-        self.buf = np.full(200000, 0.0)
+        self.calls = 0
 
     def _ro(self, v):
+        self.calls += 1
+        if self.calls > CALL_LIMIT:
+            raise _RunAway(f"more than {CALL_LIMIT} callback calls in one solve")
         if self.readonly and isinstance(v, np.ndarray):
             v = v.view()
             v.setflags(write=False)
@@ -1111,7 +1122,11 @@ def run_ode(ctx, p):
     cbf = _CB(p["readonly"])
     val = None
     with ctx.guard("no-exception", subject):
-        val, held = _ode_solve(ctx, p, cbf, True, seed)
+        try:
+            val, held = _ode_solve(ctx, p, cbf, True, seed)
+        except _RunAway:
+            ctx.discard("runaway solve: callback call budget exceeded")
+    ctx.case_note("callback_calls", cbf.calls)
     if val is None:
         return
     ctx.check("callback-cache-intact", subject, cbf.caches_intact(), sig="cached-array-corrupted")
